@@ -110,7 +110,7 @@ func Load(dir string, patterns []string, overlay map[string][]byte, tags string)
 	e := &Engine{Prog: prog, Pkgs: pkgs, Fset: prog.Fset,
 		MaxStrLen: 6, MaxConcretize: 16, MaxDecisions: 400, MaxInstrs: 20_000_000, MaxDepth: 400,
 		MaxPaths: 200000, Workers: 8, SolverName: "z3", SolverTimeout: 10000,
-		InitPkgs: map[string]bool{"errors": true, "io": true, "context": true, "strconv": true, "github.com/sdcio/schema-server/pkg/utils": true},
+		InitPkgs: map[string]bool{"errors": true, "io": true, "io/ioutil": true, "context": true, "strconv": true, "github.com/sdcio/schema-server/pkg/utils": true},
 	}
 	e.initExternals()
 	return e, nil
@@ -526,6 +526,10 @@ func (i *interpreter) shouldInit(p *ssa.Package) bool {
 		return v
 	}
 	if i.eng.RepoMod != "" && (path == i.eng.RepoMod || strings.HasPrefix(path, i.eng.RepoMod+"/")) {
+		return true
+	}
+	// the XPath machine behind must-statements: plain Go (tables, a generated parser)
+	if strings.HasPrefix(path, "github.com/sdcio/yang-parser/") {
 		return true
 	}
 	return false
